@@ -44,7 +44,7 @@ contract("selectors:WildcardSelector.resolve",
            2: ["out == wild_prefix(node, i2)", "all(wf_node(n) for n in out)"]},
     raises=[], props=["C01", "C08", "C17"])
 
-contract("selectors:FilterSelector.resolve",
+contract("selectors:FilterSelector.resolve", heavy=True,
     requires=["isinstance(self, FilterSelector)", "wf_env(self.env)", "wf_selector(self, self.env)"] + WF_NODE,
     unfold=["wf_selector", "is_json"],
     yields=["implies(not truthy(self.env.nondeterministic), out == sel_filter(self.expression, self.env, node))",
